@@ -758,7 +758,8 @@ func codecStrings(maxLen int) []string {
 	return append(out,
 		"http://host:8081", "http://10.1.2.3:8081", "http://refinery-0.refinery.svc.cluster.local:8081",
 		"http://[::1]:8081", "http://[fe80::1%eth0]:8081", "http://[2001:db8::8a2e:370:7334]:8081",
-		"http://rack1,slot2:8081", "12345678", "deadbeef", "00a10000")
+		"http://rack1,slot2:8081", "12345678", "deadbeef", "00a10000",
+		`\`, `a\`, `\,`, `a\,b`, `\\,`, `http://dc\rack,1:8081`)
 }
 
 func codec(r *ev.Run) {
@@ -829,7 +830,7 @@ func main() {
 	type sc struct {
 		nodes, starts, depth int
 	}
-	scs := ev.Pick(r, []sc{{2, 3, 9}}, []sc{{2, 3, 9}, {3, 4, 7}})
+	scs := ev.Pick(r, []sc{{2, 3, 9}}, []sc{{2, 3, 11}, {3, 4, 8}})
 	if d, err := strconv.Atoi(os.Getenv("C18_DEPTH")); err == nil { // experimentation only
 		for i := range scs {
 			scs[i].depth = d
@@ -853,7 +854,7 @@ func main() {
 	codec(r)
 	r.Set("bounds", map[string]any{"scenarios(nodes,max starts incl. one restart,depth)": fmt.Sprint(scs), "advances": fmt.Sprint(advances),
 		"suffix": "drain order {fifo,lifo} x refresh interval of each running node in {3s, 3.6s-1ns}; deadline = +PeerEntryTimeout+3.6s; stability window = one more 3.6s",
-		"codec":  "action {R,U} x address x id over all strings of length<=4 over {a , : [ ] /} plus 10 realistic forms"})
+		"codec":  "action {R,U} x address x id over all strings of length<=4 over {a , : [ ] /} plus 16 realistic / escape-prone forms"})
 	r.Assume("'alive and publishing' = started (Start+Ready) and neither stopped nor crashed; a stopped/crashed process no longer receives; a restart is a new instance ID on the same address")
 	r.Assume("'within the peer entry timeout plus one refresh interval' is measured from the moment the last in-flight message has arrived, with the longest (fully jittered, 3.6s) interval: the weakest reading; 'converges' includes staying converged for one more interval")
 	r.Assume("the random refresh jitter is owned by enumerating both ends of its documented range per node; during the explored prefix refreshes may fire at any instant (superset of the real timing), the oracle is only evaluated after the suffix")
